@@ -525,13 +525,17 @@ def harnesses(tier: str) -> List[H]:
                                 "callee of f0's precondition: %d)" % v, family_size=4 ** 4 * 2))
     else:
         for top in range(3):
-            params = [E("e0"), E("e1"), E("e2"), E("e3"), E("e4"), E("e5"), B("t0"), B("t1"), B("t2")]
-            d = dict(base)
-            d["top"] = top
-            out.append(H("graph_conditions_top%d" % top, bind(run_graph, (False,), ALL, d, [p.name for p in params]),
-                         params, tiers=(tier,), timeout=3600,
-                         family="3 contracted functions; each precondition makes up to two calls; all 4^6 graphs",
-                         family_size=4 ** 6))
+            for v in range(-1, N):
+                params = [E("e1"), E("e2"), E("e3"), E("e4"), E("e5"), B("t0"), B("t1"), B("t2")]
+                d = dict(base)
+                d["top"] = top
+                d["e0"] = v
+                out.append(H("graph_conditions_top%d_%s" % (top, "n" if v < 0 else v),
+                             bind(run_graph, (False,), ALL, d, [p.name for p in params]),
+                             params, tiers=(tier,), timeout=3600,
+                             family="3 contracted functions; each precondition makes up to two calls; all 4^5 graphs with the "
+                                    "first callee of f0's precondition = %d" % v,
+                             family_size=4 ** 5))
         for fuel in (1, 2):
             for v in range(-1, N):
                 params = [E("e0"), E("e2"), E("e4"), E("b1"), E("b2"), E("b3"), B("t1"), B("t2")]
@@ -544,22 +548,23 @@ def harnesses(tier: str) -> List[H]:
                              family="conditions call one function each; bodies of f0/f1 call up to two (first callee of f0's "
                                     "body: %d); fuel %d" % (v, fuel), family_size=4 ** 6))
         for v in range(-1, N):
-            params = [I("top", 0, 2), I("fuel", 0, 1), E("e2"), E("p0"), E("p1"), E("c0"), E("c1"), E("b0")]
+            params = [I("top", 0, 1), E("e2"), E("p0"), E("p1"), E("c0"), E("c1"), E("b0")]
             d = dict(base)
             d["e0"] = v
+            d["fuel"] = 1
             out.append(H("graph_post_%s" % ("n" if v < 0 else v), bind(run_graph, (True,), ALL, d, [p.name for p in params]),
                          params, tiers=(tier,), timeout=3600,
                          family="pre-/postconditions, snapshot captures and bodies calling functions (first callee of f0's "
-                                "precondition: %d)" % v, family_size=4 ** 6 * 6))
+                                "precondition: %d)" % v, family_size=4 ** 6 * 2))
     # 2. objects
     OA = ["o", "k", "fuel", "i0", "i1", "c0", "c1", "c2", "c3"]
     if tier == "quick":
         params = [I("o", 0, 1), I("k", 0, 2), I("fuel", 0, 2), I("i0", -1, 1), I("c0", -1, 3), I("c2", -1, 3)]
         d = {"i1": -1, "c1": -1, "c3": -1}
     else:
-        params = [I("o", 0, 1), I("k", 0, 2), I("fuel", 0, 3), I("i0", -1, 1), I("i1", -1, 1), I("c0", -1, 3), I("c1", -1, 3),
-                  I("c2", -1, 3), I("c3", -1, 3)]
-        d = {}
+        params = [I("o", 0, 1), I("k", 0, 2), I("fuel", 0, 2), I("i0", -1, 1), I("i1", -1, 1), I("c0", -1, 3), I("c2", -1, 3),
+                  I("c3", -1, 3)]
+        d = {"c1": -1}
     out.append(H("objects", bind(run_objs, (), OA, d, [p.name for p in params]), params, tiers=(tier,),
                  timeout=900 if tier == "quick" else 3600,
                  family="two objects of a class with an invariant; the invariant calls public methods of self; method "
